@@ -440,6 +440,37 @@ def oracles(ctx, deep):
                     add(Violation("default-model-instantiates", "%s: %s(**default configuration) raises %s: %s" % (nm, mname, type(e).__name__, str(e)[:160]), {"config_class": nm, "model": "%s.%s.%s" % (pkg, modname, mname), "exception": type(e).__name__, "message": str(e)[:300]}, site))
     except Exception as e:  # noqa
         add(Violation("default-model-instantiates", "enumeration of model configurations failed: %s: %s" % (type(e).__name__, str(e)[:160]), {"exception": type(e).__name__}, {"kind": "default-model-enum"}))
+    # 5. every masking-function name, configured through the typed MaskingConfig (as an inference section is), can be built
+    #    and called: line counts for the Cartesian generators, fractions for the others
+    try:
+        import inspect as _insp
+
+        import direct.common.subsample as SUB
+        from direct.common.subsample_config import MaskingConfig
+        from omegaconf import OmegaConf
+
+        C.resolve  # the Calgary-Campinas stub is installed by cfgharness
+        from ..cfgharness import _stub_calgary
+
+        cache2 = tempfile.mkdtemp(prefix="c20m_", dir=ctx.work)
+        _stub_calgary(cache2)
+        abstract = {"Base", "CartesianVertical", "CIRCUS", "KtBase"}  # bases without a sampling scheme of their own
+        names = sorted(n[: -len("MaskFunc")] for n, o in vars(SUB).items() if isinstance(o, type) and n.endswith("MaskFunc") and o.__module__ == SUB.__name__ and n[: -len("MaskFunc")] not in abstract)
+        for nm in names:
+            runs += 1
+            cf = [4] if nm.startswith("Cartesian") else [0.1]  # a count of centre lines / a fraction (feasible for width 64 at R = 4)
+            acc = [5] if nm == "CalgaryCampinas" else [4]
+            shape = (1, 3, 32, 64, 2) if nm.startswith("Kt") else ((218, 170, 2) if nm == "CalgaryCampinas" else (1, 32, 64, 2))
+            site = {"kind": "masking-name", "name": nm}
+            try:
+                cfgm = OmegaConf.merge(OmegaConf.structured(MaskingConfig), {"name": nm, "accelerations": acc, "center_fractions": cf})
+                mf = SUB.build_masking_function(**cfgm)
+                mf(shape, seed=1)
+            except Exception as e:  # noqa
+                add(Violation("masking-name-instantiates", "masking function %s configured through the typed schema (accelerations %s, center_fractions %s) raises %s: %s" % (nm, acc, cf, type(e).__name__, str(e)[:140]), {"name": nm, "accelerations": acc, "center_fractions": cf, "exception": type(e).__name__, "message": str(e)[:300]}, site))
+        shutil.rmtree(cache2, ignore_errors=True)
+    except Exception as e:  # noqa
+        add(Violation("masking-name-instantiates", "enumeration of masking functions failed: %s: %s" % (type(e).__name__, str(e)[:160]), {"exception": type(e).__name__}, {"kind": "masking-enum"}))
     shutil.rmtree(cache, ignore_errors=True)
     ctx.oracle_runs = runs
     return out
